@@ -306,3 +306,15 @@ Theorem C13_concat_routing_refuted :
                   ~ ingested ops X i /\ last ops Rotate = QSearch X [108;111;103;115].
 Proof. exact concat_routing_refuted. Qed.
 Print Assumptions C13_concat_routing_refuted.
+
+(* ---- ownership is checked before anything is deleted, from the source: on EVERY path through deleteIndex
+   (call-order skeleton regenerated from /repo on every run, callees inlined; every branch possible, every loop any
+   number of times) each call that deletes by index name — segments, the open segstore, the virtual-table entry —
+   is preceded, in the SAME iteration of the loop over the expanded names, by vtable.IsVirtualTablePresent for the
+   requesting org (rules C13.* of GenOrderCheck.co_rules).  The skeleton drops data: that the check's result is
+   honoured is what the harness observes. ---- *)
+From SigP Require GenOrderCheck GenOrderProofs.
+Theorem C13_code_checks_ownership_before_deleting : forall r : GenOrderCheck.rule,
+  In r GenOrderCheck.c13_rules -> GenOrderCheck.rule_holds r.
+Proof. exact GenOrderProofs.co_C13_rules_hold. Qed.
+Print Assumptions C13_code_checks_ownership_before_deleting.
